@@ -188,8 +188,30 @@ def run(ctx):
     # siblings that differ only in white space *inside* a string literal (and so mean different things)
     sib_a = 'def sib { salt: "s 1" splitters: uid, sid return "a" weighted 1, "b" weighted 1, "c" weighted 1 }'
     sib_b = 'def sib { salt: "s  1" splitters: uid, sid return "a" weighted 1, "b" weighted 1, "c" weighted 1 }'
+    # ... and revisions a weak change detector cannot tell apart: same bytes in another order (byte sums), the (+1,-2,+1)
+    # pattern and swapped weights (Adler-32), same length, and pairs colliding under CRC-32 / digests cut to 32 bits
+    # (data/collisions.json, which C11 uses too)
+    sib_pairs = [(sib_a, sib_b, ("uid", "sid"))]
+    for la, lb in (("aca", "bab"), ("ab", "ba")):
+        sib_pairs.append(tuple(f'def sib {{ splitters: uid, sid return "{x}" weighted 1, "x" weighted 1 }}' for x in (la, lb)) + (("uid", "sid"),))
+    for wa, wb in (("121", "202"), ("1", "9"), ("10", "01")):
+        sib_pairs.append((f'def sib {{ splitters: uid, sid return "a" weighted {wa}, "b" weighted {wb} }}',
+                          f'def sib {{ splitters: uid, sid return "a" weighted {wb}, "b" weighted {wa} }}', ("uid", "sid")))
+    try:
+        import json as _json
+
+        from pyabv.run import HOME as _HOME
+
+        with open(os.path.join(_HOME, "data", "collisions.json")) as _f:
+            for _fn, _p in sorted(_json.load(_f).items()):
+                if _p["a"] != _p["b"]:
+                    sib_pairs.append((_p["a"], _p["b"], ("uid",)))
+    except OSError:
+        ctx.count("harness/collisions-file-missing")
+    ctx.note("sibling_pairs", len(sib_pairs))
 
     # ---- layer 1: in-process history ----------------------------------------------------------------
+    twin_round = [-1]
     table = {}  # (text, env_key) -> canonical outcome
     seen_by = {}  # (text, env_key) -> set of instance ids
 
@@ -303,6 +325,10 @@ def run(ctx):
             elif op == "twin":
                 # one long-lived evaluator taken from sibling to sibling and back; each state compared (through the table)
                 # with fresh evaluators of the same text
+                twin_round[0] += 1
+                ctx.count("in-process/sibling-rounds")
+                ctx.seen("sibling_pairs_used", twin_round[0] % len(sib_pairs))
+                sib_a, sib_b, sib_fields = sib_pairs[twin_round[0] % len(sib_pairs)]
                 sib = new_eval(sib_a)
                 for t in (sib_b, sib_a, sib_b):
                     try:
@@ -311,8 +337,8 @@ def run(ctx):
                         ctx.count("recompile-raised (C11's business)")
                         break
                     fresh = new_eval(t)
-                    for u in ("x", 1, li):
-                        env = dict(uid=u, sid="k")
+                    for u in ("x", 1, li, "u%d" % twin_round[0], 2.5, "user-7"):
+                        env = {k: v for k, v in dict(uid=u, sid="k").items() if k in sib_fields}
                         if not record(t, env, im.call(fresh[0], env), fresh[2], "fresh-sibling"):
                             return
                         if not record(t, env, im.call(sib[0], env), sib[2], "recompiled-to-whitespace-sibling"):
